@@ -4,12 +4,10 @@
     lines the Rust harness executed are replayed here and the dumps are compared.
     Model only, no proofs. *)
 From Coq Require Import List NArith ZArith Bool Floats.
-From HC Require Import Stm.Prog Map2.Ops2 Map2.State2 Map2.Wf2.
+From HC Require Import Stm.Prog Map2.Ops2 Map2.State2 Map2.Wf2 Extract.Tok.
 Import ListNotations.
 Open Scope N_scope.
 
-(** tokens exchanged with the harness: integers and IEEE-754 doubles (bit-exact) *)
-Inductive tok := TZ (z : Z) | TF (f : float).
 
 (** ** the f64 coordinates + the harness' four user attribute kinds *)
 Definition V2 := (float * float)%type.
@@ -108,8 +106,6 @@ Definition compact (n : N) (ks : kinds) (s : store) : store :=
 Definition compact2 (st : state2) : state2 := with_mem st (compact (nd st) (aks st) (mem st)).
 
 (** ** dumps *)
-Definition tN (n : N) : tok := TZ (Z.of_N n).
-Definition tB (b : bool) : tok := TZ (if b then 1 else 0)%Z.
 
 Definition dump_dart (ks : kinds) (s : store) (d : N) : list tok :=
   [tN (beta s 0 d); tN (beta s 1 d); tN (beta s 2 d); tB (unused s d)] ++
@@ -137,7 +133,6 @@ Definition dump_result (r : result N) : list tok :=
   end.
 
 (** ** parsing cases *)
-Definition zN (z : Z) : N := Z.to_N z.
 
 Definition parse_call (ts : list tok) : option (call2 * list tok) :=
   match ts with
@@ -193,21 +188,26 @@ Definition parse_op (ts : list tok) : option (option N * op2 * list tok) :=
   | _ => None
   end%Z.
 
-(** run the ops of a case, emitting one observation line per op;
+(** run the ops of a case, emitting one observation line per observed op;
+    [7 b] switches observation on/off (switching on emits the current state);
     [fuel] bounds the number of ops (the token count is enough) *)
-Fixpoint run_ops (fuel : nat) (st : state2) (ts : list tok) : list (list tok) :=
+Fixpoint run_ops (fuel : nat) (obs : bool) (st : state2) (ts : list tok) : list (list tok) :=
   match fuel with
   | O => []
   | S f =>
     match ts with
     | [] => []
+    | TZ 7 :: TZ b :: rest =>
+      if (b =? 0)%Z then run_ops f false st rest
+      else (dump_result (ROk 0) ++ dump2 st) :: run_ops f true st rest
     | _ =>
       match parse_op ts with
       | None => [[TZ (-1)]]                       (* malformed case: visible in the diff *)
       | Some (fa, o, rest) =>
         let '(r, st') := step2 fa st o in
         let st'' := compact2 st' in
-        (dump_result r ++ dump2 st'') :: run_ops f st'' rest
+        if obs then (dump_result r ++ dump2 st'') :: run_ops f obs st'' rest
+        else run_ops f obs st'' rest
       end
     end
   end.
@@ -217,7 +217,7 @@ Definition run_case2 (ts : list tok) : list (list tok) :=
   match ts with
   | TZ mask :: TZ n0 :: rest =>
       let st := empty2 (zN n0) (kinds_of_mask (zN mask)) in
-      (dump_result (ROk 0) ++ dump2 st) :: run_ops (length rest) st rest
+      (dump_result (ROk 0) ++ dump2 st) :: run_ops (length rest) true st rest
   | _ => [[TZ (-1)]]
   end.
 
@@ -279,21 +279,48 @@ Definition parse_dump2 (ts : list tok) : option (state2 * list tok) :=
   | _ => None
   end.
 
-(** oracle for C01: the observation line (result ++ dump) is a well-formed 2-map *)
-Definition oracle_wf2 (ts : list tok) : list (list tok) :=
+(** ** oracles: applied to *implementation* observations.
+    Input: [npre] pre-observation, [nop] op tokens, post-observation.
+    Output: [1] holds, [0; class] violated, [2] outside the property's premises, [-1] unreadable. *)
+Definition split_step (ts : list tok) : option (list tok * list tok * list tok) :=
+  match ts with
+  | TZ npre :: rest =>
+    let pre := firstn (Z.to_nat npre) rest in
+    match skipn (Z.to_nat npre) rest with
+    | TZ nop :: rest' => Some (pre, firstn (Z.to_nat nop) rest', skipn (Z.to_nat nop) rest')
+    | _ => None
+    end
+  | _ => None
+  end.
+
+Definition obs_state (ts : list tok) : option state2 :=
   match ts with
   | _ :: _ :: _ :: dump =>
     match parse_dump2 dump with
-    | Some (st, []) => [[tB (wf2b (nd st) (mem st))]]
-    | _ => [[TZ (-1)]]
+    | Some (st, []) => Some st
+    | _ => None
     end
-  | _ => [[TZ (-1)]]
+  | _ => None
   end.
 
-(** ** the entry points the generic OCaml driver dispatches on *)
-Definition entry (which : N) (ts : list tok) : list (list tok) :=
-  match which with
-  | 1 => run_case2 ts
-  | 2 => oracle_wf2 ts
-  | _ => [[TZ (-2)]]
-  end.
+(** C01, one step: a well-formed pre-state and an in-contract op give a well-formed post-state *)
+Definition oracle_wf2_step (ts : list tok) : list (list tok) :=
+  match split_step ts with
+  | Some (pre, op, post) =>
+    match obs_state pre, obs_state post with
+    | Some st, Some st' =>
+      match op with
+      | TZ 7 :: _ => [[if wf2b (nd st') (mem st') then TZ 1 else TZ 2]]
+      | _ =>
+        match parse_op op with
+        | Some (fa, o, []) =>
+          if wf2b (nd st) (mem st) && pre_opb fa st o
+          then (if wf2b (nd st') (mem st') then [[TZ 1]] else [[TZ 0; TZ 1]])
+          else [[TZ 2]]
+        | _ => [[TZ (-1)]]
+        end
+      end
+    | _, _ => [[TZ (-1)]]
+    end
+  | None => [[TZ (-1)]]
+  end%Z.
